@@ -34,8 +34,19 @@ def _bit_widths(tier):
 
 
 def _offset_shape(cfg, limit):
+    """offset operand: "range" = range(limit + 1), "wide" = one bit wider, "narrow" = range(limit): an index signal
+    that cannot hold `limit` itself (narrower than bits_for(limit) when limit is a power of two)"""
     from amaranth import Shape
+    if cfg["ow"] == "narrow":
+        return Shape.cast(range(max(limit, 1)))
     return Shape.cast(range(limit + 1)) if cfg["ow"] == "range" else Shape(_bits_for(limit) + 1)
+
+
+def _max_off(cfg, limit):
+    """largest offset that is documented (<= limit) and representable in the offset operand"""
+    if cfg["ow"] == "narrow":
+        return min(limit, (1 << _bits_for(max(limit, 1) - 1)) - 1) if limit > 1 else 0
+    return limit
 
 
 def _shift_cfgs(tier):
@@ -45,6 +56,8 @@ def _shift_cfgs(tier):
         res.append({"w": w, "ow": "range" if w % 2 else "wide", "ph": "default"})
         if w in (1, 2, 5):
             res.append({"w": w, "ow": "wide", "ph": "const1"})
+        if w in (2, 4, 8, 3):
+            res.append({"w": w, "ow": "narrow", "ph": "sig"})
     return res
 
 
@@ -70,11 +83,12 @@ def _shift_build(name):
 
 def _shift_domain(cfg):
     phs = {"sig": (0, 1), "default": (0,), "const1": (1,)}[cfg["ph"]]
-    return ([x, off, ph] for x in range(1 << cfg["w"]) for off in range(cfg["w"] + 1) for ph in phs)
+    return ([x, off, ph] for x in range(1 << cfg["w"]) for off in range(_max_off(cfg, cfg["w"]) + 1) for ph in phs)
 
 
 def _rot_cfgs(tier):
-    return [{"w": w, "ow": ow} for w in _bit_widths(tier) for ow in (("range", "wide") if w <= 4 else ("range",))]
+    return [{"w": w, "ow": ow} for w in _bit_widths(tier)
+            for ow in (("range", "wide", "narrow") if w in (2, 4) else ("range", "wide") if w <= 4 else ("range",))]
 
 
 def _rot_build(name):
@@ -253,11 +267,11 @@ for _n in ("shift_right", "shift_left"):
     FAMILIES[_n] = Family(_n, cfgs=_shift_cfgs, domain=_shift_domain, build=_shift_build(_n), on_raise=RAISED)
 for _n in ("rotate_right", "rotate_left"):
     FAMILIES[_n] = Family(_n, cfgs=_rot_cfgs, build=_rot_build(_n), on_raise=RAISED,
-                          domain=lambda cfg: ([x, off] for x in range(1 << cfg["w"]) for off in range(cfg["w"] + 1)))
+                          domain=lambda cfg: ([x, off] for x in range(1 << cfg["w"]) for off in range(_max_off(cfg, cfg["w"]) + 1)))
 for _n in ("generic_shift_right", "generic_shift_left"):
     FAMILIES[_n] = Family(_n, cfgs=_gen_cfgs, build=_gen_build(_n), on_raise=RAISED,
                           domain=lambda cfg: ([a, b, off] for a in range(1 << cfg["w"]) for b in range(1 << cfg["w"])
-                                              for off in range(cfg["w"] + 1)))
+                                              for off in range(_max_off(cfg, cfg["w"]) + 1)))
 for _n in ("shift_vec_right", "shift_vec_left"):
     FAMILIES[_n] = Family(_n, cfgs=_vec_cfgs, domain=_vec_shift_domain, build=_vec_shift_build(_n), on_raise=[RAISED])
 for _n in ("rotate_vec_right", "rotate_vec_left"):
